@@ -505,7 +505,7 @@ fn check_status_bytes(ctx: &mut Ctx) -> Result<(), String> {
 
 pub fn run(ctx: &mut Ctx) {
     let fs = ctx.first_shard();
-    ctx.rule = "well-formed values of the six CTAP2 message types (makeCredential / getAssertion requests and responses, getInfo response, hmac-secret input) with every optional member present or absent, nested descriptors, extension inputs/outputs (hash maps with several entries); injected unknown integer keys 0..=255 outside the type's table and unknown text keys; every member duplicated; every required member removed; options member absent and all 8 partial option maps; all 256 status bytes (conversion both ways, client mapping, and end-to-end through Client::authenticate). Non-trivial = message with at least one optional member present or one injected key, or a status byte; distinct by encoding.".into();
+    ctx.rule = "well-formed values of the six CTAP2 message types (makeCredential / getAssertion requests and responses, getInfo response, hmac-secret input) with every optional member present or absent, nested descriptors, extension inputs/outputs (hash maps with several entries); injected unknown integer keys 0..=255 outside the type's table and unknown text keys; every member duplicated; every required member removed; options member absent and all 8 partial option maps; all 256 status bytes (conversion both ways, client mapping, and end-to-end through Client::authenticate). Since round 7 a third of the partial option maps also carry an unknown text key. Non-trivial = message with at least one optional member present or one injected key, or a status byte; distinct by encoding.".into();
     ctx.assumptions = vec![
         "key tables are transcribed from the CTAP 2.1/2.2 specification in the harness".into(),
         "nested member encodings are compared with the serde encoding of that member taken alone (the statement constrains the top-level keys); equality of messages is equality of their order-normalised CBOR values".into(),
